@@ -1060,7 +1060,7 @@ fn child_case<V: Variant>(case: &Case, max_cuts: u64, seed: u64, only: Option<(u
         // value failures of a settle run in a case whose own baseline is clean: is it the cut, or does the SAME history
         // without the cut (the target replaced by what of it took effect) fail the same way?  Then it is not a C05 failure.
         let mut equiv_mis: BTreeSet<(u32, String, i64)> = BTreeSet::new();
-        if !o.mismatches.is_empty() && base_mis.is_empty() && !o.held_mode && f.is_cut() {
+        if !o.mismatches.is_empty() && base_mis.is_empty() && f.is_cut() {
             let mut variants: Vec<Case> = vec![];
             match &case.ops[t] {
                 Op::Round(_) => {
